@@ -50,10 +50,10 @@ class Runner:
             return None, [], [], {}, ["harness failed: " + log[-1500:]]
         meta = json.load(open(os.path.join(out, "meta.json")))
         cases = load_jsonl(os.path.join(out, "cases.jsonl"))
-        res = self.ctx.coq_eval_shards(GROUP, out, meta["shards"], idents=("M", "W"))
+        res = self.ctx.coq_eval_shards(GROUP, out, (meta.get("shards") or []), idents=("M", "W"))
         errors = ["correspondence shard %s did not evaluate: %s" % (s, lg[-600:]) for s, lg in res["_errors"]]
         mbad, pbad = [], {}
-        for k, shard in enumerate(meta["shards"]):
+        for k, shard in enumerate((meta.get("shards") or [])):
             r = res.get(shard) or {}
             base = k * meta["shard_size"]
             for i in (self.ctx.parse_nlist(r.get("M")) or []):
